@@ -199,6 +199,25 @@ def check_main_loop(ctx, num=3):
                 and norm.nnf(e.generators[0].ifs[0]) == ("truth", f"{e.generators[0].target.id}.failed()", True) and norm.is_name(e.elt, e.generators[0].target.id):
             fcnt = n
     okf = fcnt is not None and sm.every_iteration(fcnt) and g.dominates(ex[0], fcnt)
+    if fcnt is None:
+        # single-pass form:  for r in results: if r.failed(): failures += 1
+        for n in ast.walk(lp):
+            if isinstance(n, ast.AugAssign) and isinstance(n.target, ast.Name) and isinstance(n.op, ast.Add) and isinstance(n.value, ast.Constant) and n.value.value == 1 \
+                    and not isinstance(n.value.value, bool):
+                rl = enclosing_for(n, f.node)
+                if rl is None or not norm.is_name(rl.iter, resv) or not isinstance(rl.target, ast.Name) or enclosing_for(rl, f.node) is not lp:
+                    continue
+                rv = rl.target.id
+                if not norm.entails(g.facts_at(n), ("truth", f"{rv}.failed()", True)):
+                    continue
+                h2 = g.node_of(rl).id
+                nf = ("truth", f"{rv}.failed()", False)
+                miss = g.path_avoiding(h2, {h2, g.exit.id}, {g.node_of(n).id},
+                                       edge_ok=lambda a, b, lab, h2=h2: not (a == h2 and lab == "done") and not (isinstance(lab, tuple) and lab[0] == "cond" and nf in norm.atoms_true(lab[1])))
+                if miss is None and sm.every_iteration(rl) and g.dominates(ex[0], rl):
+                    fcnt, okf = n, True
+                    ok0, inits = _starts_at_zero(n.target.id)
+                    ctx.ob(num, "K5", f"the counter `{n.target.id}` starts at 0 before the first tick", ok0, f, inits[0] if inits else n, construct=f"{n.target.id} = 0", detail=f"{[stmt_text(i) for i in inits]}")
     ctx.ob(num, "K3", "the failure counter grows by the number of this tick's results with failed() true", okf, f, fcnt or lp, construct="failures += len([r for r in results if r.failed()])",
            detail=stmt_text(fcnt) if fcnt is not None else "not found")
     ecs = [n for n in ast.walk(lp) if isinstance(n, ast.AugAssign) and isinstance(n.target, ast.Subscript) and norm.U(n.target.slice).endswith(".error")]
@@ -216,6 +235,16 @@ def check_main_loop(ctx, num=3):
         oke = el is not None and isfail and isinstance(el.target, ast.Name) and norm.U(ecs[0].target.slice) == f"{el.target.id}.error" and isinstance(ecs[0].op, ast.Add) \
             and isinstance(ecs[0].value, ast.Constant) and ecs[0].value.value == 1 and sm.every_iteration(el)
         d = f"loop over {src}; key {norm.U(ecs[0].target.slice)}"
+        if not oke and el is not None and norm.is_name(el.iter, resv) and isinstance(el.target, ast.Name):
+            # single-pass form: inside the loop over this tick's results, under failed()
+            rv = el.target.id
+            h2 = g.node_of(el).id
+            nf = ("truth", f"{rv}.failed()", False)
+            miss = g.path_avoiding(h2, {h2, g.exit.id}, {g.node_of(ecs[0]).id},
+                                   edge_ok=lambda a, b, lab, h2=h2: not (a == h2 and lab == "done") and not (isinstance(lab, tuple) and lab[0] == "cond" and nf in norm.atoms_true(lab[1])))
+            oke = norm.entails(g.facts_at(ecs[0]), ("truth", f"{rv}.failed()", True)) and miss is None and norm.U(ecs[0].target.slice) == f"{rv}.error" and isinstance(ecs[0].op, ast.Add) \
+                and isinstance(ecs[0].value, ast.Constant) and ecs[0].value.value == 1 and sm.every_iteration(el) and g.dominates(ex[0], el)
+            d = f"loop over {resv} under {rv}.failed(); key {norm.U(ecs[0].target.slice)}; every failed result counted: {miss is None}"
     ctx.ob(num, "K3", "the per-error counter grows by one for every failed result of the tick, keyed by that result's error", oke, f, ecs[0] if ecs else lp,
            construct="failure_error_counts[failure.error] += 1", detail=d)
     sm.names = dict(newp=newp, susv=susv, asgv=asgv, resv=resv, outstanding=outstanding, arrivals=arrivals, counters=counters, fcnt=fcnt, ecs=ecs)
